@@ -317,6 +317,11 @@ var c17Eligibility = &histCheck{
 		f := false
 		p := &genProfile{minOps: 6, maxOps: 40, gc: true, tinyFiles: true, maxKeys: 6, buckets: []int{1}, checkVHash: &f, maxHeight: 3,
 			kinds: []string{"set", "set", "set", "set", "set", "delete", "rotate", "rotate", "rotate", "flush", "gc", "get", "reopen", "freshen"}}
+		// the configured no_gc_days applies when a request passes a negative value (the web handler's default)
+		p.postCfg = func(t *rapid.T, c *Cfg) {
+			d := rapid.SampledFrom([]int{0, 7, 1, 0, 20000}).Draw(t, "conf_nogcdays")
+			c.NoGCDays = &d
+		}
 		return p
 	},
 	postGen: func(t *rapid.T, h *History) {
